@@ -366,6 +366,31 @@ def rule_h(R, ctx):
              "the handler calls %s besides apply_update(%s): the update is touched before the clock-guarded merge sees it" %
              ([F.strip_generics(c.name).rsplit("::", 2)[-2:] for c in others][:3], sshow(arg, 4)), ap[0].loc())
     R.floor("C18.h", "awareness handlers that apply the update", n, 2)
+    # the public wrappers in front of the merge hand the update on untouched as well
+    m = 0
+    for meth in ("apply_update", "apply_update_with", "apply_update_summary", "apply_update_summary_with"):
+        fn = Y.fn("yrs::sync::awareness::Awareness::" + meth)
+        v = FnView(fn)
+        ai = fn.calls_to("yrs::sync::awareness::Awareness::apply_update_internal")
+        if len(ai) != 1:
+            R.ob("C18.h", fn, "wrapper", False, "%d calls of apply_update_internal" % len(ai))
+            continue
+        m += 1
+        arg = simp_deep(v.arg(ai[0], 1, 10))
+        is_param = arg[0] == "param" and fn.local_name(arg[1]) == "update"
+        touched = []
+        for cs in fn.calls():
+            if cs is ai[0] or cs.bb == ai[0].bb:
+                continue
+            for i in range(len(cs.args)):
+                a = simp_deep(v.arg(cs, i, 8))
+                if root_name(a) == "update" and not re.search(r"(Try|FromResidual).*::(branch|from_residual)$", cs.name):
+                    touched.append("%s(%s)" % (F.strip_generics(cs.name).rsplit("::", 1)[-1], sshow(a, 4)))
+        ok = is_param and not touched and fn.cfg().postdominates(ai[0].bb, 0)
+        R.ob("C18.h", fn, "wrapper-hands-on", ok, "apply_update_internal(self, update, ..) on every path, the update untouched" if ok else
+             "the wrapper %s before the clock-guarded merge sees the update (argument %s)" %
+             ("calls %s on it" % touched if touched else "does not pass its own parameter / not on every path", sshow(arg, 4)), ai[0].loc())
+    R.floor("C18.h", "public wrappers of the awareness merge", m, 4)
 
 
 def check(ctx, R):
